@@ -12,7 +12,7 @@ from common import R
 from common import all_pre_build as pre_build  # noqa: F401  (regenerates Generated/GeoWiring.lean — translate_geo.py — from the tested tree)
 
 LEAN_MODULES = ["PyomaVerif.Props.C19", "PyomaVerif.Props.C19Geo2", "PyomaVerif.Props.C19Plot", "PyomaVerif.Mutants.C19",
-                "PyomaVerif.Mutants.C19Geo2", "PyomaVerif.Props.WiringGeo"]
+                "PyomaVerif.Mutants.C19Geo2", "PyomaVerif.Props.WiringGeo", "PyomaVerif.Props.C19Lines", "PyomaVerif.Mutants.C19Lines"]
 THEOREMS = [
     "PV.C19.C19_flatten_single",
     "PV.C19.C19_flatten_multi",
@@ -93,6 +93,17 @@ THEOREMS = [
     "PV.C19.C19_by_file_geo2_error",
     "PV.C19.C19_by_file_zero_based_geo2",
     "PV.C19.C19_by_file_other",
+    # the zero-based line arrays consumed by plt_lines (clause 9)
+    "PV.C19.pyIndex_shift",
+    "PV.C19.segOf_shift",
+    "PV.C19.C19_plot_lines_one_based",
+    "PV.C19.C19_plot_lines_past_end",
+    "PV.C19.C19_plot_geo2_lines",
+    "PV.C19.C19_plot_geo2_lines_one_based",
+    "PV.C19.C19_plot_geo1_lines",
+    "PV.C19.C19_plot_geo1_lines_one_based",
+    "PV.C19M.oldpoints_lines_fails",
+    "PV.C19M.noshift_lines_fails",
 ]
 RULE = (
     "correspondence: generated sheet dictionaries (1..12 sensor names, single setup or 2..4 setups with 1..3 references, "
@@ -103,7 +114,9 @@ RULE = (
     "(numbers exactly; mapped values and displacements at 1e-12); the display pipeline def_geo1 + plot_mode_geo1 / def_geo2 + "
     "plot_mode_geo2_mpl against the model's defPlotGeo1 / defPlotGeo2: start and end point of every arrow, every displaced point, as "
     "held by the Agg artists (every argument form, scaleF in {0, 0.5, 1, 2, 5, 10, -1.5}, colour fixed or 'cmap', background present "
-    "or absent, shapes of another length and single table faults; 1e-11). oracle: the statement with plain dict look-ups on the "
+    "or absent, shapes of another length and single table faults; 1e-11), and the LINE artists of both plots (sensor lines between the "
+    "sensor positions / the displaced points, background lines between background nodes; an index past the last point, a 0 and a NaN "
+    "in the one-based sheet) against defPlotGeo1Lines / defPlotGeo2Lines. oracle: the statement with plain dict look-ups on the "
     "generating spec, plus Agg artists of plot_mode_geo1 / plot_mode_geo2_mpl; every function is also used twice on the "
     "caller's own (un-copied) tables; def_geo1_by_file / def_geo2_by_file / _def_geo_by_file with read_excel_file replaced by a "
     "function that hands over the generated sheet dictionary (valid sets, every single fault, INFO sheet, another geo_type) "
@@ -1475,6 +1488,21 @@ def spec_json(spec):
     return s
 
 
+def _judge_lines(ctx, inp, which, spec, artists, pts):
+    """the one-based `sensors lines` sheet where it is used: line (a, b) of the sheet is drawn between the a-th and the b-th
+    displayed point, counted from one (the artists that follow are the three lines of the origin triad)"""
+    sl = spec["opt"].get("sensors lines")
+    rows = sl["rows"] if isinstance(sl, dict) else []
+    segs = [np.column_stack([np.asarray(a, float) for a in ln._verts3d]) for ln in artists]
+    good = len(segs) == len(rows) + 3
+    for (a, b), seg in zip(rows, segs):
+        good = good and seg.shape == (2, 3) and _close(seg[0], pts[a - 1]) and _close(seg[1], pts[b - 1])
+    if not good:
+        ctx.violation(f"plot-geo{which}-lines", f"plot_mode_geo{which}: line (a, b) of the one-based 'sensors lines' sheet is not drawn between the "
+                      "a-th and the b-th displayed point", inp, observed=[g.tolist() for g in segs[: len(rows)]],
+                      expected=[[list(map(float, pts[a - 1])), list(map(float, pts[b - 1]))] for a, b in rows])
+
+
 def oracle_case(ctx, kind, spec, extra=None):
     """one oracle evaluation of the real code; `kind` selects the clause of the statement"""
     gen = _gen()
@@ -1670,6 +1698,8 @@ def oracle_case(ctx, kind, spec, extra=None):
                     good = good and _close(off[k], base[k]) and _close(segs[k][0], base[k]) and _close(segs[k][1], tip[k])
                 if not good:
                     ctx.violation("plot-geo1-coords", "plot_mode_geo1: arrow k is not drawn from sensor k's coordinates along its direction times its mode-shape component", inp)
+                elif not any(nanrow):
+                    _judge_lines(ctx, inp, 1, spec, ax.lines[len(flat):], base)
             else:
                 fig, ax = s.plot_mode_geo2_mpl(_res(Phi), 2, scaleF=scale, color="red")
                 w = expect_geo2(spec)
@@ -1678,6 +1708,8 @@ def oracle_case(ctx, kind, spec, extra=None):
                 if not _close(off, want):
                     ctx.violation("plot-geo2-coords", "plot_mode_geo2_mpl: displayed point != coordinate + mapped value x sign", inp,
                                   observed=off.tolist(), expected=want.tolist())
+                else:
+                    _judge_lines(ctx, inp, 2, spec, ax.lines, want)
         finally:
             plt.close("all")
         # drawing does not change the geometry
